@@ -381,6 +381,8 @@ def run_workload(side, case, tmpdir, n):
     out["received"] = len(stream)
     if out["status"] == "idle" and len(stream) >= expected:
         out["status"] = "complete"          # the last bytes were in flight between the two probes
+    elif out["status"] in ("idle", "peer-eof") and out.get("eof") is False:
+        out["status"] = "no-eof"            # a short stream is only final once the listener has read EOF
     if out["status"] in ("complete", "idle", "peer-eof"):
         out["problems"] = judge_stream(threads, stream, conn.out_buffer_size)
     return out
